@@ -90,7 +90,8 @@ impl Int {
         let x = string
             .parse::<i128>()
             .map_err(|e| JsError::from_str(&format! {"{:?}", e}))?;
-        if x.abs() > u64::MAX as i128 {
+        // not `x.abs()`: it overflows for i128::MIN (a panic with overflow checks, an accepted out-of-range value without)
+        if x > u64::MAX as i128 || x < -(u64::MAX as i128) {
             return Err(JsError::from_str(&format!(
                 "{} out of bounds. Value (without sign) must fit within 4 bytes limit of {}",
                 x,
